@@ -11,6 +11,7 @@ package main
 
 import (
 	"fmt"
+	"path/filepath"
 	"reflect"
 	"regexp"
 	"sort"
@@ -709,17 +710,45 @@ func runC18(cfg *runCfg) error {
 		base := buildC18Doc(seed, feats)
 		td, vals, conds, lists := c18Data(cr)
 		res.Evaluations++
-		te := document.NewTemplateEngine()
-		if _, err := te.LoadTemplateFromDocument("d", base); err != nil {
-			fail(ci, "loads", "load_error", err.Error(), nil)
-			continue
+		var out *document.Document
+		var err error
+		wantDoc := buildC18Doc(seed, map[string]int{})
+		if cr.chance(20) {
+			// the other way in: the template is a file, loaded and rendered through the TemplateRenderer; the base is what
+			// opening that file gives
+			feats["rendered through TemplateRenderer from a file"]++
+			path := filepath.Join(cfg.out, "c18tpl.docx")
+			if e := base.Save(path); e != nil {
+				fail(ci, "loads", "load_error", "saving the template: "+e.Error(), nil)
+				continue
+			}
+			tr := document.NewTemplateRenderer()
+			tr.SetLogging(false)
+			if _, e := tr.LoadTemplateFromFile("d", path); e != nil {
+				fail(ci, "loads", "load_error", e.Error(), nil)
+				continue
+			}
+			out, err = tr.RenderTemplate("d", td)
+			opened, e1 := document.Open(path)
+			opened2, e2 := document.Open(path)
+			if e1 != nil || e2 != nil {
+				fail(ci, "loads", "load_error", fmt.Sprint(e1, e2), nil)
+				continue
+			}
+			base, wantDoc = opened, opened2
+		} else {
+			te := document.NewTemplateEngine()
+			if _, e := te.LoadTemplateFromDocument("d", base); e != nil {
+				fail(ci, "loads", "load_error", e.Error(), nil)
+				continue
+			}
+			out, err = te.RenderTemplateToDocument("d", td)
 		}
-		out, err := te.RenderTemplateToDocument("d", td)
 		if err != nil {
 			fail(ci, "renders", "render_error", err.Error(), nil)
 			continue
 		}
-		want := bodyDump(buildC18Doc(seed, map[string]int{}))
+		want := bodyDump(wantDoc)
 		canonTree(want)
 		refTreeL(want, vals, conds, lists)
 		got := bodyDump(out)
